@@ -334,6 +334,13 @@ func (h *FBDNSDB) Reload(s ReloadSignal) (err error) {
 	h.reloadMu.Lock()
 	defer h.reloadMu.Unlock()
 
+	select {
+	case <-h.done:
+		// Close() already destroyed the database: reloading it would touch and close it again
+		return fmt.Errorf("DB is closed, ignoring reload request")
+	default:
+	}
+
 	switch s.Kind {
 	case FullReload:
 		if s.Payload == "" {
